@@ -112,6 +112,15 @@ def Stage.onLimit {α} (v : Nat) : Stage α → List (Diff α) × Stage α
   | .skip c k b r => (Skip.updateCount c v b, .skip (some v) k b r)
   | st => ([], st)
 
+/-- a whole container through the Sort arms, in order; `none` = an `expect` failed -/
+def sortDiffs {α} (cmp : α → α → Ordering) (sortFn : List (Nat × α) → List (Nat × α)) :
+    List (Diff α) → List (Diff α) → List (Nat × α) → Option (List (Diff α) × List (Nat × α))
+  | [], out, b => some (out, b)
+  | d :: ds, out, b =>
+    match Srt.handle cmp sortFn d b with
+    | none => none
+    | some (o, b') => sortDiffs cmp sortFn ds (out ++ o) b'
+
 /-- one incoming container through the stage (`push_into_*_buf` / `filter_map` with the stage's closure):
     the diffs produced, in order, and the updated stage; `none` = a panic (`apply` out of range, `expect`) -/
 def Stage.onDiffs {α} (T : Tables α) (ds : List (Diff α)) : Stage α → Option (List (Diff α) × Stage α)
@@ -131,13 +140,7 @@ def Stage.onDiffs {α} (T : Tables α) (ds : List (Diff α)) : Stage α → Opti
         (acc.1 ++ o.toList, s)) ([], st)
     some (out, .filter fid st')
   | .sort cid buf r =>
-    (ds.foldl (fun (acc : Option (List (Diff α) × List (Nat × α))) d =>
-        match acc with
-        | none => none
-        | some (out, b) =>
-          match Srt.handle (T.cmp cid) (T.sort cid) d b with
-          | none => none
-          | some (o, b') => some (out ++ o, b')) (some ([], buf))).map fun (out, buf') => (out, .sort cid buf' r)
+    (sortDiffs (T.cmp cid) (T.sort cid) ds [] buf).map fun (out, buf') => (out, .sort cid buf' r)
 
 /-- `poll_next` of a chain of stages (outermost first) sitting on receiver `sub` of the vector — the common
     skeleton of head.rs:193-245, tail.rs:204-264, skip.rs:205-270, filter.rs:395-456, sort.rs:214-247:
